@@ -73,6 +73,7 @@ impl Tag for EndHeaderTag {
 impl<'a> Multiboot2Header<'a> {
 //@extract multiboot2-header/src/header.rs :: impl<'a> Multiboot2Header<'a> :: fn information_request_tag
 //@  ret r
+//@  optional
 //@  spec:
 //@    requires self.wf(), panics_allowed(),
 //@    ensures hdr_getter_post::<InformationRequestHeaderTag>(self, 1, r),   // specification: type = 1
@@ -80,6 +81,7 @@ impl<'a> Multiboot2Header<'a> {
 
 //@extract multiboot2-header/src/header.rs :: impl<'a> Multiboot2Header<'a> :: fn address_tag
 //@  ret r
+//@  optional
 //@  spec:
 //@    requires self.wf(), panics_allowed(),
 //@    ensures hdr_getter_post::<AddressHeaderTag>(self, 2, r),   // specification: type = 2
@@ -87,6 +89,7 @@ impl<'a> Multiboot2Header<'a> {
 
 //@extract multiboot2-header/src/header.rs :: impl<'a> Multiboot2Header<'a> :: fn entry_address_tag
 //@  ret r
+//@  optional
 //@  spec:
 //@    requires self.wf(), panics_allowed(),
 //@    ensures hdr_getter_post::<EntryAddressHeaderTag>(self, 3, r),   // specification: type = 3
@@ -94,6 +97,7 @@ impl<'a> Multiboot2Header<'a> {
 
 //@extract multiboot2-header/src/header.rs :: impl<'a> Multiboot2Header<'a> :: fn console_flags_tag
 //@  ret r
+//@  optional
 //@  spec:
 //@    requires self.wf(), panics_allowed(),
 //@    ensures hdr_getter_post::<ConsoleHeaderTag>(self, 4, r),   // specification: type = 4
@@ -101,6 +105,7 @@ impl<'a> Multiboot2Header<'a> {
 
 //@extract multiboot2-header/src/header.rs :: impl<'a> Multiboot2Header<'a> :: fn framebuffer_tag
 //@  ret r
+//@  optional
 //@  spec:
 //@    requires self.wf(), panics_allowed(),
 //@    ensures hdr_getter_post::<FramebufferHeaderTag>(self, 5, r),   // specification: type = 5
@@ -108,6 +113,7 @@ impl<'a> Multiboot2Header<'a> {
 
 //@extract multiboot2-header/src/header.rs :: impl<'a> Multiboot2Header<'a> :: fn module_align_tag
 //@  ret r
+//@  optional
 //@  spec:
 //@    requires self.wf(), panics_allowed(),
 //@    ensures hdr_getter_post::<ModuleAlignHeaderTag>(self, 6, r),   // specification: type = 6
@@ -115,6 +121,7 @@ impl<'a> Multiboot2Header<'a> {
 
 //@extract multiboot2-header/src/header.rs :: impl<'a> Multiboot2Header<'a> :: fn efi_boot_services_tag
 //@  ret r
+//@  optional
 //@  spec:
 //@    requires self.wf(), panics_allowed(),
 //@    ensures hdr_getter_post::<EfiBootServiceHeaderTag>(self, 7, r),   // specification: type = 7
@@ -122,6 +129,7 @@ impl<'a> Multiboot2Header<'a> {
 
 //@extract multiboot2-header/src/header.rs :: impl<'a> Multiboot2Header<'a> :: fn entry_address_efi32_tag
 //@  ret r
+//@  optional
 //@  spec:
 //@    requires self.wf(), panics_allowed(),
 //@    ensures hdr_getter_post::<EntryEfi32HeaderTag>(self, 8, r),   // specification: type = 8
@@ -129,6 +137,7 @@ impl<'a> Multiboot2Header<'a> {
 
 //@extract multiboot2-header/src/header.rs :: impl<'a> Multiboot2Header<'a> :: fn entry_address_efi64_tag
 //@  ret r
+//@  optional
 //@  spec:
 //@    requires self.wf(), panics_allowed(),
 //@    ensures hdr_getter_post::<EntryEfi64HeaderTag>(self, 9, r),   // specification: type = 9
@@ -136,6 +145,7 @@ impl<'a> Multiboot2Header<'a> {
 
 //@extract multiboot2-header/src/header.rs :: impl<'a> Multiboot2Header<'a> :: fn relocatable_tag
 //@  ret r
+//@  optional
 //@  spec:
 //@    requires self.wf(), panics_allowed(),
 //@    ensures hdr_getter_post::<RelocatableHeaderTag>(self, 10, r),   // specification: type = 10
